@@ -27,6 +27,7 @@ func emitPart(c *ctx) map[string]interface{} {
 		MaxDepth      int `json:"max_nesting_depth"`
 		Concurrent    int `json:"cases_with_concurrent_derivation"`
 		Reused        int `json:"stacks_built_again_from_the_same_argument_slice"`
+		Distinct      int `json:"distinct_constructions"`
 		Viols         []struct {
 			Case int    `json:"case"`
 			Why  string `json:"why"`
@@ -51,9 +52,9 @@ func emitPart(c *ctx) map[string]interface{} {
 	}
 	return map[string]interface{}{
 		"evaluations":         r.Cases,
-		"distinct_nontrivial": r.Cases,
+		"distinct_nontrivial": r.Distinct,
 		"rule": "Engine E: cff.EmitterStack / cff.NopEmitter observed at their API: random forests of stacks over 2..13 recording emitters (stacks shared between several parents, nested in any argument position, one base extended many times, chains, concurrent derivation from a shared base, no-op emitters among the arguments, a second stack built from the same argument slice) are built first, then a unique event sequence (all Task/Flow/Parallel/Scheduler emitter methods, payload identity) is driven through every stack; " +
-			"each recording emitter must receive, for every stack it is part of, exactly that sequence, and nothing of any other stack. distinct = cases (each builds >= 2 stacks)",
+			"each recording emitter must receive, for every stack it is part of, exactly that sequence, and nothing of any other stack. distinct = distinct construction descriptions (which emitters and stacks each stack was built from) with at least two stacks",
 		"stacks_built":                                r.Stacks,
 		"stacks_sharing_a_child":                      r.SharedParents,
 		"event_sequences_driven":                      r.Drives,
